@@ -22,6 +22,7 @@ pub fn run(id: &str, tier: Tier) -> i32 {
         "C02" => proto::run_c02(tier),
         "C03" => proto::run_c03(tier),
         "C09" => proto::run_c09(tier),
+        "C09-edges" => proto::run_c09_edges_child(tier),
         "C10" => proto::run_c10(tier),
         "C04" => loopprops::run_c04(tier),
         "C05" => loopprops::run_c05(tier),
